@@ -439,10 +439,12 @@ def fuzz_stage(name, runs):
                    os.path.join(wd, "c")]
             e = dict(env)
             e["FUZZ_SEED_CORPUS"] = "1" if w % 2 == 0 else "0"
-            procs.append((wd, subprocess.Popen(cmd, env=e, cwd=wd, stdout=subprocess.PIPE, stderr=subprocess.STDOUT, text=True)))
+            procs.append((wd, subprocess.Popen(cmd, env=e, cwd=wd, stdout=open(os.path.join(wd, 'fuzz.log'), 'w'), stderr=subprocess.STDOUT, text=True)))
         execs = 0
         for wd, p in procs:
-            out, _ = p.communicate()
+            p.wait()          # output goes to a file: a full pipe would block the fuzzers one after the other
+            with open(os.path.join(wd, "fuzz.log")) as lf:
+                out = lf.read()
             for ln in out.splitlines():
                 if ln.startswith("stat::number_of_executed_units:"):
                     execs += int(ln.split(":")[-1])
